@@ -192,6 +192,19 @@ pub fn recursion_program(r: &mut StdRng, maxn: u32) -> String {
     }
 }
 
+// gv parse-hosts <programs.jsonl> : the real parser's term for every program that parses and has no hole -> {"t": term}
+pub fn parse_hosts(args: &[String]) {
+    for l in crate::util::read_lines(&args[0]) {
+        if let Ok(rec) = serde_json::from_str::<Value>(&l) {
+            if let Some(t) = parse_to_json(rec["text"].as_str().unwrap_or("")) {
+                if !c_pipe::has_hole(&t) {
+                    println!("{}", json!({"t": t}));
+                }
+            }
+        }
+    }
+}
+
 // gv gen-programs <kind> <seed> <count>  -> stdout: one {"text":..,"origin":..} per line
 pub fn main(args: &[String]) {
     let kind = args[0].as_str();
